@@ -132,7 +132,11 @@ def check(case):
             raise Violation('sort-swallowed-key-error', f'{desc}\nthe key function raised {ename} for example {bad}; '
                                                         f'sort returned {[e["id"] for e in got]}')
         try:
-            if case['keyless']:
+            if case.get('positional'):
+                # the documented parameter order, given positionally: sort(key_fn, sort_fn, reverse)
+                kf = None if case['keyless'] else (FalsyKey() if case.get('falsy_key') else (lambda e: e['v']))
+                out = ds.sort(kf, kw.get('sort_fn', sorted), rev_arg)
+            elif case['keyless']:
                 out = ds.sort(reverse=rev_arg, **kw)
             else:
                 out = ds.sort(FalsyKey() if case.get('falsy_key') else (lambda e: e['v']), reverse=rev_arg, **kw)
@@ -254,6 +258,7 @@ def st_case(draw):
         case['reverse'] = draw(st.booleans())
         case['sort_fn'] = draw(st.sampled_from(['sorted', 'sorted', 'wrapper', 'partial', 'rev_input', 'inverting', 'one_shot']))
         case['reverse_as'] = draw(st.sampled_from(['bool', 'bool', 'int', 'np']))
+        case['positional'] = draw(st.integers(0, 3)) == 0
         if draw(st.integers(0, 5)) == 0:
             case['key_raises'] = [draw(st.integers(0, 7)), draw(st.sampled_from(['StopIteration', 'StopIteration',
                                                                                  'ValueError', 'KeyError']))]
